@@ -160,10 +160,9 @@ def guard_capacity(cond, truth, D, dest_ty):
         if d[k] == 0:
             del d[k]
     k0 = b[1] - a[1]
-    if dest_ty == 'handles::ByteDestination':
-        ok = d in ({'len:field': 1}, {'len:remaining': 1})
-    else:
-        ok = d == {'len:field': 1, 'pos': -1}
+    # free space is len(remaining) for a destination kept as a shrinking slice, len(slice) - pos for one kept as slice + position;
+    # either representation may be used by any destination type
+    ok = d in ({'len:field': 1, 'pos': -1}, {'len:remaining': 1}) or (d == {'len:field': 1} and dest_ty not in HAS_POS)
     if not ok:
         return None
     cap = (1 - k0) if strict else -k0
@@ -208,7 +207,14 @@ def pos_after(body, a, b):
     return bb_ in nxt
 
 
+HAS_POS = set()      # destination types that keep a position field (free space = len(slice) - pos)
+
+
 def run(rep, facts, config='default'):
+    HAS_POS.clear()
+    for name_, a_ in facts.adts.items():
+        if name_.startswith('handles::') and name_.endswith('Destination') and any(fd_['name'] == 'pos' for v_ in a_.get('variants', []) for fd_ in v_.get('fields', [])):
+            HAS_POS.add(name_)
     H = handle_types(facts)
     rep.analysed.setdefault('handle_types', sorted(H))
     rep.floor('R-HANDLE.types', 'handle structs', len(H), 8, config)
